@@ -7,7 +7,8 @@ Correspondence, per case (language, configuration, Rust source):
   * the judgement runs on the REAL bytes: the extracted Gallina lexer of the language (c10_lex), the
     extracted keyword predicates (good_C10_kw, good_C10_swift_labels) on the declaring positions that
     lib/extract.py finds in the real text, and the grammar validators: the extracted Gallina recogniser of
-    the TypeScript declaration grammar (Spec/C10TsGrammar.v), CPython ast.parse + a declaration grammar over
+    the TypeScript declaration grammar (Spec/C10TsGrammar.v), the extracted Gallina recogniser of the Go declaration grammar
+    (Spec/C10GoGrammar.v: tokenizer with semicolon insertion + recursive descent, run on every real Go file), CPython ast.parse + a declaration grammar over
     its AST + import against lib/pydantic_stub for Python, the template recognisers of lib/extract.py
     (nothing unparsed, no anomaly) for all six, plus `= _` in a Scala parameter list;
   * dom_C10 / known_C10 (extracted) on the IR the REAL parser produced classify the case.
@@ -32,8 +33,9 @@ PREDICTS = {
     'C10-python-generic-alias': {'py-grammar', 'py-import-at-generic-alias'},
     'C10-python-empty-union': {'py-syntax'},
     'C10-python-digit-name': {'py-syntax', 'identifier', 'template'},
-    'C10-digit-name': {'identifier', 'template', 'ts-grammar'},
+    'C10-digit-name': {'identifier', 'template', 'ts-grammar', 'go-grammar'},
     'C10-python-generic-enum-arg': {'py-import-not-subscriptable'},
+    'C10-go-keyword-name': {'go-grammar'},
 }
 
 OVERRIDE = ('#[typeshare(typescript(type = "Record<string, number[]>"), kotlin(type = "Map<String, List<Int>>"), '
@@ -402,7 +404,7 @@ def judge(chk, cases, tag):
     """cases: list of (lang, cfg, src, meta). Runs both sides, judges the real bytes."""
     res = back.run_src([(l, c, s, []) for l, c, s, _ in cases])
     # extracted judgements on the real bytes / real IR
-    lexq, clsq, kwq, tsq, idx = [], [], [], [], []
+    lexq, clsq, kwq, tsq, goq, idx = [], [], [], [], [], []
     obs = {}
     for k, (r, (lang, cfg, src, meta)) in enumerate(zip(res, cases)):
         if r['impl'][0] != 'ok':
@@ -415,8 +417,12 @@ def judge(chk, cases, tag):
         kwq.append(kw_request(lang, obs[k][0], obs[k][1]))
         if lang == 'typescript':
             tsq.append((k, f'(c10_ts_parse {S(text)})'))
+        if lang == 'go':
+            goq.append((k, f'(c10_go_parse {S(text)})'))
+            goq.append((('cls', k), f'(c10_go_cls {back.items_sx(r["ir"])})'))
     cfgkeys = sorted(set((cases[k][0], json.dumps(cases[k][1], sort_keys=True)) for k in idx))
     cfgq = [f'(c10_cfg {l} {back.cfg_sx(json.loads(c))})' for l, c in cfgkeys]
+    goa = dict(zip([k for k, _ in goq], vf.model([q for _, q in goq])))
     ans = vf.model(lexq + clsq + kwq + [q for _, q in tsq] + cfgq)
     n = len(idx)
     lexa, clsa, kwa = ans[:n], ans[n:2 * n], ans[2 * n:3 * n]
@@ -444,7 +450,7 @@ def judge(chk, cases, tag):
         dom = vf.sx_get(clsa[j], 'dom') == 'true' and cfg_ok[(lang, json.dumps(cfg, sort_keys=True))]
         if not cfg_ok[(lang, json.dumps(cfg, sort_keys=True))]:
             chk.count('inadmissible_configuration')
-        known = list(vf.sx_get(clsa[j], 'known'))
+        known = list(vf.sx_get(clsa[j], 'known')) + list(goa.get(('cls', k), []))
         decls, labels, fails, why = obs[k]
         fails = list(fails)
         lex = lexa[j]
@@ -457,6 +463,9 @@ def judge(chk, cases, tag):
         if k in tsa and tsa[k] == 'none':
             fails.append('ts-grammar')
             why.append('the extracted recogniser of the TypeScript declaration grammar (Spec/C10TsGrammar.v) rejects the text')
+        if k in goa and goa[k] == 'none':
+            fails.append('go-grammar')
+            why.append('the extracted recogniser of the Go declaration grammar (Spec/C10GoGrammar.v) rejects the text')
         if vf.sx_get(kwa[j], 'kw') != 'true':
             fails.append('keyword')
             why.append('a declared name that is a keyword of the language is not escaped')
@@ -598,7 +607,7 @@ def phase_folder(chk, n):
         for c, src in (('lib-crate', lib), ('app', app)):
             (d / 'ws' / c / 'src').mkdir(parents=True)
             (d / 'ws' / c / 'src' / 'lib.rs').write_text(src)
-        for lang, extra in (('typescript', []), ('kotlin', ['--java-package', 'com.p']), ('swift', []), ('python', [])):
+        for lang, extra in (('typescript', []), ('kotlin', ['--java-package', 'com.p']), ('swift', []), ('python', []), ('go', ['--go-package', 'p'])):
             out = d / f'out_{lang}'
             out.mkdir()
             p = subprocess.run(['timeout', '30', str(vf.TYPESHARE), '--lang', lang] + extra + ['--output-folder', str(out), str(d / 'ws')], capture_output=True, text=True)
@@ -610,8 +619,12 @@ def phase_folder(chk, n):
                 continue
             files = {f.name: f.read_text(errors='replace') for f in sorted(out.iterdir()) if f.is_file()}
             lex = vf.model([f'(c10_lex {lang} {S(t)})' for t in files.values()])
-            for (fn, t), lx in zip(files.items(), lex):
+            gog = vf.model([f'(c10_go_parse {S(t)})' for t in files.values()]) if lang == 'go' else [None] * len(files)
+            for (fn, t), lx, gg in zip(files.items(), lex, gog):
                 fails, why = [], []
+                if gg == 'none':
+                    fails.append('go-grammar')
+                    why.append(f'{fn}: rejected by the extracted recogniser of the Go declaration grammar (Spec/C10GoGrammar.v)')
                 if lx[0] != 'balanced':
                     fails.append('lex')
                     why.append(f'lexer: {lx[0]} in {fn}')
@@ -639,6 +652,7 @@ WITNESSES = [
     ('kotlin', {'package': 'com.x'}, '#[typeshare]\npub struct S { #[serde(rename = "1st")] pub first: u8 }\n', 'C10-digit-name'),
     ('typescript', {}, '#[typeshare]\npub struct S { #[serde(rename = "1st")] pub first: u8, #[serde(rename = "2-fa")] pub two: u8 }\n', 'C10-digit-name'),
     ('go', {'package': 'p'}, '#[typeshare]\npub struct S { pub _1x: u8 }\n', 'C10-digit-name'),
+    ('go', {'package': 'p'}, '#[typeshare]\n#[serde(tag = "type", content = "content")]\npub enum switch { default(String) }\n', 'C10-go-keyword-name'),
     ('python', {}, '#[typeshare]\n#[serde(tag = "t", content = "c")]\npub enum G { #[serde(rename = "1a")] V(u8) }\n#[typeshare]\npub struct S { pub _1x: u8 }\n', 'C10-python-digit-name'),
     ('python', {}, '#[typeshare]\n#[serde(tag = "t", content = "c")]\npub enum G<T> { V(T) }\n#[typeshare]\npub type Al = Vec<G<u8>>;\n', 'C10-python-generic-enum-arg'),
 ]
@@ -654,6 +668,7 @@ def lex_expectations(chk):
     ans = vf.model([f'(c10_lex {l} {S(t)})' for (l, _), t in zip(files, texts)])
     tsans = vf.model([f'(c10_ts_parse {S(t)})' for (l, _), t in zip(files, texts) if l == 'typescript'])
     tsit = iter(tsans)
+    goit = iter(vf.model([f'(c10_go_parse {S(t)})' for (l, _), t in zip(files, texts) if l == 'go']))
     blame = {'scala-default': 'C10-scala-default', 'py-grammar': 'C10-python-generic-alias'}
     for (lang, f), t, a in zip(files, texts, ans):
         chk.count('expectation_files')
@@ -664,6 +679,9 @@ def lex_expectations(chk):
         if lang == 'typescript' and next(tsit) == 'none':
             fails = fails + ['ts-grammar']
             why = why + ['rejected by the extracted TypeScript recogniser']
+        if lang == 'go' and next(goit) == 'none':
+            fails = fails + ['go-grammar']
+            why = why + ['rejected by the extracted recogniser of the Go declaration grammar']
         name = pathlib.Path(f).parent.name
         for k in fails:
             if k == 'py-grammar' and not any('Subscript' in w for w in why):
@@ -683,6 +701,7 @@ def run(chk):
                 'A case is non-trivial when it is inside dom_C10, in no finding class, and declares at least one definition.')
     chk.assumptions = [
         'the six lexers of Spec/C10Spec.v are the definition of "delimiters, string literals and comments are closed" (no compiler of the five non-Python languages is installed)',
+        'the Go declaration grammar is the recogniser of Spec/C10GoGrammar.v (written from the language specification; function bodies are only checked to be balanced token runs)',
         'grammar conformance is validated, not proved: CPython ast.parse + import against lib/pydantic_stub for Python; template recognisers of lib/extract.py for the others',
         'doc text is restricted to the safe predicate c10_doc_ok (doc-induced breakage is C15)',
         'a Python NameError at import is name resolution (C09 / C11 / C12) and a duplicate Enum member name is a naming collision (C02): both counted, not judged here; any other import failure is judged',
@@ -780,6 +799,9 @@ def replay(chk, path):
         print('lexer verdict  :', vf.dump_sx(lex))
         print('classification :', vf.dump_sx(cls))
         print('keywords       :', vf.dump_sx(kw))
+        if d['lang'] == 'go' and vf.model([f'(c10_go_parse {S(text)})'])[0] == 'none':
+            fails = fails + ['go-grammar']
+            why = why + ['rejected by the extracted recogniser of the Go declaration grammar (Spec/C10GoGrammar.v)']
         print('grammar        :', fails, why)
         bad = lex[0] != 'balanced' or fails or vf.sx_get(kw, 'kw') != 'true' or vf.sx_get(kw, 'labels') != 'true'
         return 1 if bad else 0
